@@ -1,5 +1,5 @@
 (* Property C11 - a site's contribution is independent of earlier sites (additive, order-free). *)
-From Sfs Require Import Index ArrayM Scalar Spectrum Project Create SampleParse Npy Text Container IndexP ArrayP BinomP ProjectP CreateP CreateSpecP SampleParseP SampleParseGenP ContainerP SampleFieldP.
+From Sfs Require Import Index ArrayM Scalar Spectrum Project Create SampleParse Npy Text Container IndexP ArrayP BinomP ProjectP CreateP CreateSpecP SampleParseP SampleParseGenP ContainerP SampleFieldP Frames FramesP.
 From Coq Require Import Permutation.
 Close Scope string_scope.
 
